@@ -15,7 +15,7 @@
  *
  * Plan file ($SIMFS_DIR/plan), one rule per line, '#' comments:
  *   <proc|*> <opclass> <nth|0> <path|*> <action> [a1] [a2]
- *   opclass: open openw read write rename unlink stat mkdir spawn wait realpath
+ *   opclass: open openw read write rename unlink stat mkdir spawn wait realpath getcwd
  *            fsync any
  *   path:    path relative to root ("@0" "@1" "@2" for the std streams), or "*"
  *            a leading '%' means "ends with"
@@ -111,6 +111,7 @@ static int (*r_fstatat64)(int, const char *, struct stat64 *, int);
 static int (*r_statx)(int, const char *, int, unsigned, struct statx *);
 static int (*r_access)(const char *, int);
 static char *(*r_realpath)(const char *, char *);
+static char *(*r_getcwd)(char *, size_t);
 static ssize_t (*r_readlink)(const char *, char *, size_t);
 static int (*r_fsync)(int);
 static int (*r_fdatasync)(int);
@@ -135,7 +136,7 @@ static void load_real(void) {
     REAL(stat); REAL(lstat); REAL(stat64); REAL(lstat64); REAL(fstatat); REAL(fstatat64);
     REAL(statx); REAL(access); REAL(realpath); REAL(readlink); REAL(fsync); REAL(fdatasync);
     REAL(getrandom); REAL(clock_gettime); REAL(posix_spawn); REAL(posix_spawnp);
-    REAL(waitpid); REAL(execvp); REAL(fork);
+    REAL(waitpid); REAL(execvp); REAL(fork); REAL(getcwd);
 }
 
 /* ---- helpers ---- */
@@ -768,6 +769,20 @@ char *realpath(const char *p, char *out) {
     char *res = r_realpath(p, out);
     if (ON && under) { int e = errno; logf_("%lu realpath %s -> %s\n", seq++, rel(abs), res ? rel(res) : "NULL"); errno = e; }
     return res;
+}
+
+/* the working directory cannot be named (it was removed, an ancestor is unreadable, the name is too long) */
+char *getcwd(char *buf, size_t size) {
+    ENTER();
+    if (ON) {
+        struct rule *r = match_rule("getcwd", "*", 0);
+        if (r && r->action == A_ERRNO) {
+            r->fired++; cnt_ops++;
+            logf_("%lu getcwd -> NULL errno=%ld FAULT\n", seq++, r->a1);
+            errno = (int)r->a1; return NULL;
+        }
+    }
+    return r_getcwd(buf, size);
 }
 
 ssize_t readlink(const char *p, char *b, size_t n) {
